@@ -493,18 +493,33 @@ def unroll_tables(tree):
 
 # ------------------------------------------------------------------------------------------------ E. named tuples
 def namedtuple_types(tree):
-    """Module-level ``_P = namedtuple('_P', 'a b')`` / ``namedtuple('_P', ['a', 'b'])`` bound once: name -> field list."""
+    """Module-level ``_P = namedtuple('_P', 'a b')`` / ``namedtuple('_P', ['a', 'b'])`` bound once -- or a class deriving
+    from just such a call that only adds plain methods: name -> field list."""
     stores = _module_bindings(tree)
     out = {}
     for st in tree.body:
-        if not (isinstance(st, ast.Assign) and len(st.targets) == 1 and isinstance(st.targets[0], ast.Name) and isinstance(st.value, ast.Call)):
+        if isinstance(st, ast.ClassDef):
+            # ``class _P(namedtuple('_P', 'a b')): __slots__ = (); <methods>``: the same record type with methods added, as
+            # long as no method touches construction or field access
+            if len(st.bases) == 1 and isinstance(st.bases[0], ast.Call) and not st.keywords and not st.decorator_list and \
+                    all((isinstance(b, ast.Expr) and isinstance(b.value, ast.Constant)) or
+                        (isinstance(b, ast.Assign) and len(b.targets) == 1 and isinstance(b.targets[0], ast.Name) and b.targets[0].id == '__slots__' and
+                         isinstance(b.value, ast.Tuple) and not b.value.elts) or
+                        (isinstance(b, ast.FunctionDef) and not (b.name.startswith('__') and b.name.endswith('__')) and
+                         b.name not in ('_make', '_replace', '_asdict', '_fields')) for b in st.body):
+                name, c = st.name, st.bases[0]
+                reserved = set(b.name for b in st.body if isinstance(b, ast.FunctionDef))
+            else:
+                continue
+        elif isinstance(st, ast.Assign) and len(st.targets) == 1 and isinstance(st.targets[0], ast.Name) and isinstance(st.value, ast.Call):
+            name, c, reserved = st.targets[0].id, st.value, set()
+        else:
             continue
-        c = st.value
         f = c.func
         if not ((isinstance(f, ast.Name) and f.id == 'namedtuple') or
                 (isinstance(f, ast.Attribute) and f.attr == 'namedtuple' and isinstance(f.value, ast.Name) and f.value.id == 'collections')):
             continue
-        if len(c.args) != 2 or c.keywords or stores.get(st.targets[0].id) != 1:
+        if len(c.args) != 2 or c.keywords or stores.get(name) != 1:
             continue
         spec = c.args[1]
         fields = None
@@ -512,8 +527,9 @@ def namedtuple_types(tree):
             fields = spec.value.replace(',', ' ').split()
         elif isinstance(spec, (ast.Tuple, ast.List)) and all(isinstance(e, ast.Constant) and isinstance(e.value, str) for e in spec.elts):
             fields = [e.value for e in spec.elts]
-        if fields and all(x.isidentifier() and not x.startswith('_') for x in fields) and len(set(fields)) == len(fields):
-            out[st.targets[0].id] = fields
+        if fields and all(x.isidentifier() and not x.startswith('_') for x in fields) and len(set(fields)) == len(fields) and \
+                not (set(fields) & reserved):
+            out[name] = fields
     return out
 
 
